@@ -161,6 +161,13 @@ func Unlocking() {
 // ignored instead). Preemption points are not synchronisation and do not count.
 var worldVC []uint64
 
+// HBSync brackets statements that call sync.Once, sync.WaitGroup, sync.Cond or atomic operations (see the instrumenter).
+func HBSync() {
+	if active.Load() {
+		hbSync(cur())
+	}
+}
+
 func hbSync(g *ginfo) {
 	mu.Lock()
 	n := len(worldVC)
